@@ -96,7 +96,7 @@ RESTRICT = {'A': {}, 'C': {},
 def gen_cases(tier, seed):
     rng = random.Random(f'c05-{seed}')
     cases = []
-    n = 900 if tier == 'quick' else 40000
+    n = 2000 if tier == 'quick' else 40000
 
     def step():
         m = rng.choice(['none', 'password', 'password', 'pk_query',
